@@ -47,7 +47,7 @@ def strCmd (args : List String) : String :=
   | ["rune", n] => match n.toNat? with | some r => hex (encode r) | none => "bad-op"
   | ["torunes", h] =>      -- []rune(s): the runes that range yields, without their offsets
     match unhex h with
-    | some s => ",".intercalate ((runes s).map fun (_, r) => toString r)
+    | some s => ",".intercalate ((toRunes s).map toString)
     | none => "bad-op"
   | "ofrunes" :: ns =>     -- string(rs): every rune encoded
     match ns.mapM String.toNat? with
